@@ -351,6 +351,11 @@ func (fx *FuncCtx) fresh(t types.Type, hint string) Val {
 		if st, ok := u.Underlying().(*types.Struct); ok {
 			return fx.freshStruct(u.Obj().Name(), st, hint)
 		}
+		if en, ok := ifaceElemName(t); ok {
+			r := fx.declare(sortInt, hint)
+			fx.emit(fmt.Sprintf("(assert (<= 0 %s))", r))
+			return VRef{r, en}
+		}
 		return fx.fresh(u.Underlying(), hint)
 	case *types.Basic:
 		switch {
